@@ -19,6 +19,7 @@ MCNext ==
     \/ SendWouldBlock
     \/ \E b \in BOOLEAN : SendError(b)
     \/ DropStale \/ \E b \in BOOLEAN : OutputOver(b)
+    \/ (\E r \in Reqs : ExpireUnwritten(r)) \/ ExpirePartial
     \/ Return
 MCSpec == Init /\ [][MCNext]_vars
 =============================================================================
